@@ -1,7 +1,7 @@
 """C02: `_find_prototypes` is Prim over the complete graph with the both-endpoints rule."""
 
 from ..common import competitions_of, run_kinds
-from ..rules_ift import Rep, check_prim, check_seeding
+from ..rules_ift import Rep, check_prim, check_prototypes_survive, check_seeding
 
 EXPLANATION = (
     "Static schema conformance: the first competition loop reached from SupervisedOPF.fit (and from "
@@ -42,6 +42,7 @@ def check(chk, repo):
                    not early, "nodes are added to the training graph before the prototype search: unlabeled samples "
                    "take part in the spanning tree", line=early[0].line if early else prim.loop.line)
         check_seeding(rep, "" if cls == "SupervisedOPF" else "semi:", ift, repo)
+        check_prototypes_survive(rep, "" if cls == "SupervisedOPF" else "semi:", ift)
     chk.floor("competition loops reachable from the two fit methods", total, 4)
     from ..rules_heap import check_heap
     check_heap(rep, repo, "HEAP-")
